@@ -81,7 +81,9 @@ package syncer
 // AddBlocks only after its proof of work was checked against the parent's target and found
 // sufficient and after it was found to attach to the tip; the peer is reported (ban) when the work
 // is insufficient, when the transactions it supplied do not complete the block it relayed, when
-// the block is rejected, and when it relays an empty transaction set.
+// the block is rejected, and when it relays an empty transaction set. A panic in a handler is
+// contained: the function deferred at the top of handleRPC calls recover() itself (recover has no
+// effect when called from a helper of the deferred function).
 //@ iface ChainManager.State
 //@   assigns nothing
 //@ iface ChainManager.Block
@@ -132,6 +134,7 @@ package syncer
 //@   assigns nothing
 //@   frame assumed
 //@   requires s != nil && s.cm != nil && stream != nil && origin != nil
+//@   ensures [panics-contained] called("recover.direct")
 //@   ensures [insufficient-work] called("CmpWork") && callres("CmpWork") < 0 ==> called("ban") && !called("AddBlocks") && !called("relayV2Header") && !called("relayV2BlockOutline")
 //@   ensures [rejected-block] called("AddBlocks") && callres("AddBlocks") != nil ==> called("ban") && !called("relayV2BlockOutline")
 //@   ensures [wrong-missing] called("SendTransactions") && callres("SendTransactions", 2) == nil && !called("AddBlocks") ==> called("ban")
